@@ -27,7 +27,7 @@ REAL, STUBBED = C.REAL, C.STUBBED
 
 
 def budget(tier):
-    return dict(nights=140, wall_s=170) if tier == "quick" else dict(nights=4000, wall_s=1700)
+    return dict(nights=280, wall_s=240) if tier == "quick" else dict(nights=4000, wall_s=1700)
 
 
 WORLD = dict(offices=["G", "S", "H", "H"], unit_types=["precinct", "precinct", "county"], n_states=(1, 3), n_counties=(2, 6),
@@ -50,7 +50,7 @@ def make_spec(st, idx, tier):
             out.append(ops[i])
             i += 1
         serial += 1
-        row, info = foreign_unit(st.shadow, world, serial)
+        row, info = foreign_unit(st.shadow, world, serial, new_state_p=0.2)
         if any(o.get("u") == row["geographic_unit_fips"] for o in out) or any(r["geographic_unit_fips"] == row["geographic_unit_fips"] for r in world["baseline"]):
             continue
         out.append(dict(t=round(c, 3), k="poll", role="before"))
